@@ -11,10 +11,33 @@ from .common import VERIF, COQ, WORK, NPROC
 
 BANNED = r'Admitted|\badmit\b|\bAxiom\b|\bParameter\b|\bConjecture\b|Unset Guard|bypass_check|type-in-type|impredicative-set|Admit Obligations|Unset Universe Checking|Unset Positivity'
 
-def hygiene():
-  """Fail-closed scan of the development for anything that would declare an axiom or weaken the kernel."""
+def dep_closure(relfiles):
+  """Files of coq/ that the given files (relative to coq/) transitively Require from the PG library."""
+  seen, todo = set(), list(relfiles)
+  while todo:
+    f = todo.pop()
+    if f in seen or not os.path.exists(os.path.join(COQ, f)):
+      continue
+    seen.add(f)
+    txt = open(os.path.join(COQ, f), encoding='utf-8').read()
+    for m in re.finditer(r'(From\s+PG\s+)?Require\s+(?:Import\s+|Export\s+)?(.*?)\.(?=\s|$)', txt, re.S):
+      frm, mods = m.group(1), m.group(2)
+      for mod in mods.split():
+        if frm:
+          todo.append(mod.replace('.', '/') + '.v')
+        elif mod.startswith('PG.'):
+          todo.append(mod[3:].replace('.', '/') + '.v')
+  return sorted(seen)
+
+def hygiene(relfiles=None):
+  """Fail-closed scan of the development for anything that would declare an axiom or weaken the kernel.
+  relfiles: restrict to the dependency closure of these files (default: everything under coq/)."""
   bad = []
-  for f in sorted(glob.glob(os.path.join(COQ, '**', '*.v'), recursive=True)):
+  if relfiles is None:
+    files = sorted(glob.glob(os.path.join(COQ, '**', '*.v'), recursive=True))
+  else:
+    files = [os.path.join(COQ, f) for f in dep_closure(relfiles)]
+  for f in files:
     txt = open(f, encoding='utf-8').read()
     # strip comments (nested) before scanning
     out, depth, i = [], 0, 0
